@@ -124,4 +124,10 @@ StaffPos(k, p) == 7 * (p.o - ClefBottom(k).o) + (p.l - ClefBottom(k).l)        \
 G2Letters(s) == LET d == (7 * 4 + 2) + s IN LetterCps(d % 7, d \div 7)
 AgnosticLetters(k, p) == G2Letters(StaffPos(k, p))
 Agnostic(k, p) == AgnosticLetters(k, p) \o AccCps(p.a)
+\* the graphic position itself (PositionInStaff): 0 = bottom line, odd = spaces; line number = s/2 + 1, space number = (s-1)/2 + 1
+\* (floor division: ledger lines and spaces below the staff count downwards), written T@<line> / S@<space>
+PosLine(s) == (s \div 2) + 1
+PosSpace(s) == ((s - 1) \div 2) + 1
+PosIsLine(s) == s % 2 = 0
+PosText(s) == IF PosIsLine(s) THEN <<84, 64>> \o IntCps(PosLine(s)) ELSE <<83, 64>> \o IntCps(PosSpace(s))
 =============================================================================
